@@ -39,12 +39,19 @@ theorem C07_given_only_if_repeatable (showHidden : Bool) (all : List FlagState) 
 
 /-- none once another member of its group was given -/
 theorem C07_mutex (showHidden : Bool) (all : List FlagState) (f o : FlagState) (g : List Str)
-    (hg : g ∈ f.groups) (hn : o.fdef.name ∈ g) (ho : o ∈ all) (hc : o.changed = true) :
+    (hg : g ∈ f.groups) (hn : o.fdef.name ∈ g) (ho : o ∈ all) (hc : o.changed = true) (hog : g ∈ o.groups) :
     offered showHidden all f = false := by
   have : mutexBlocked all f = true := by
-    simp only [mutexBlocked, List.any_eq_true, Bool.and_eq_true, beq_iff_eq]
-    exact ⟨g, hg, o.fdef.name, hn, o, ho, rfl, hc⟩
+    simp only [mutexBlocked, List.any_eq_true, Bool.and_eq_true, beq_iff_eq, List.contains_iff_mem]
+    exact ⟨g, hg, o.fdef.name, hn, o, ho, ⟨rfl, hc⟩, hog⟩
   simp [offered, this]
+
+/-- a given flag that merely has the *name* of a group member - a local flag shadowing an inherited member - blocks
+    nothing (the program accepts both; before fix 39ab3c2 the flag was withheld) -/
+theorem C07_mutex_shadowed :
+    let pmid : FlagState := { fdef := { name := "pmid".toList }, groups := [["pmid".toList, "all".toList]] }
+    let all' : FlagState := { fdef := { name := "all".toList, noOptDef := true, takesValue := false }, changed := true, groups := [["all".toList]] }
+    offered false [all', pmid] pmid = true := by decide
 
 /-- **false of the pinned code** (finding `mutex_counts_flag_itself`): a *repeatable* flag that
     belongs to a mutually-exclusive group is no longer offered once it was given itself, although
